@@ -25,7 +25,7 @@ from strawberryfields.apps import subgraph as SG
 
 PROP = "C19"
 LEVEL = "proof"
-COQ_TARGETS = ["C19/Similarity.vo", "C19/SimilarityProofs.vo", "C19/SimilarityBounded.vo", "C19/Clique.vo",
+COQ_TARGETS = ["C19/Similarity.vo", "C19/SimilarityProofs.vo", "C19/OrbitsComplete.vo", "C19/SimilarityBounded.vo", "C19/Clique.vo",
                "C19/CliqueProofs.vo", "C19/Subgraph.vo", "C19/SubgraphProofs.vo", "C19/Extra.vo"]
 COQ_DIRS = ["C19"]
 PROPERTIES_FILE = "Properties/C19.v"
@@ -43,27 +43,27 @@ TRUSTED_BASE = [
     "networkx (Graph, subgraph views, degree, density) and CPython set iteration order are observed, not modelled: "
     "the degree-table row order of a copied subgraph is read from networkx and handed to the model; Coq-compared "
     "graph cases use labels 0..7 for which CPython iterates integer sets in ascending order",
-    "scipy.special.factorial / numpy float arithmetic inside orbit_cardinality are not modelled (the model is the "
-    "exact integer); deviations are reported as findings",
+    "scipy.special.factorial(exact=True) inside orbit_cardinality is taken to be the integer factorial",
 ]
 ASSUMPTIONS = [
-    "graphs are networkx.Graph with hashable integer labels; theorems about cliques assume a simple graph (no self-loops)",
+    "graphs are networkx.Graph (undirected, self-loops allowed) with integer labels",
     "oracle semantics of np.random.choice: any element can be returned; theorems quantify over all draw lists",
 ]
 MANIFEST_TEXT = (
-    "proof (_partial). Full, unbounded theorems: orbits soundness (every yielded list is a partition, n >= 1); conversions "
-    "(orbit is a partition of the photon number, permutation invariance, orbit->sample->orbit round trip for every shuffle, "
-    "sample_to_event spec, event_to_sample lands in the requested event for every draw); exact multinomial identity for the integer model of orbit_cardinality; postselect / "
-    "modes_from_counts / to_subgraphs specs; is_clique <-> all pairs adjacent on simple graphs (and on all graphs once "
-    "self-loops are ignored); c_0 / c_1 characterisations; selection rule of grow/swap for every draw; grow = maximal clique "
-    "containing the input; swap = clique of equal size; shrink = clique inside the input; removal/addition rules of the "
-    "documented weight-mode variant and of the source outside weight mode; resize entries have exactly the requested sizes, "
-    "cover the range, are nested; _update_subgraphs_list bounded / only offered entries / denser candidate kept / sorted. "
-    "Bounded (bound in the statement): orbits complete and duplicate-free for n <= 40; cardinalities = brute-force counts "
-    "for <= 6 photons, <= 5 modes. Refuted on the faithful model (known findings): orbits(0), is_clique with self-loops, "
-    "weight-mode node choice of shrink/resize, event_cardinality with fewer modes than photons. Not theorems: unbounded "
-    "completeness of orbits, unbounded count = multinomial, event_to_sample, whole-history statement for search, the probabilities inside event_to_sample; the "
-    "floating-point arithmetic of orbit_cardinality is not modelled (compared against the exact model instead).")
+    "proof (_partial). Models are of the source after the /repo fixes 87b9aa4, 5c60841, eefbefe. Full, unbounded theorems: "
+    "orbits soundness and completeness (every yielded list is a partition, n >= 1); conversions (orbit is a partition of the photon number, "
+    "permutation invariance, orbit->sample->orbit round trip for every shuffle, sample_to_event spec, event_to_sample lands "
+    "in the requested event for every draw); exact multinomial identity of orbit_cardinality, 0 when the orbit is longer "
+    "than the mode count; postselect / modes_from_counts / to_subgraphs specs; is_clique <-> all pairs adjacent on every "
+    "undirected graph (self-loops allowed); c_0 / c_1 characterisations; selection rule of grow/swap for every draw; "
+    "grow = maximal clique containing the input; swap = clique of equal size; clique.search = clique at least as large as "
+    "the input; shrink = clique inside the input, removing a minimum-degree (then minimum-weight) node at every step; "
+    "resize entries have exactly the requested sizes, cover the range, are nested, growth adds a highest-degree (then "
+    "highest-weight) node; _update_subgraphs_list bounded / only offered entries / denser candidate kept / sorted. "
+    "orbits(n) yields every partition of n exactly once for every n >= 1 (unbounded). "
+    "Bounded (bound in the statement): cardinalities = brute-force counts for <= 6 photons, <= 5 modes. Refuted: orbits(0) (known finding); and, about explicitly named OLD variants only, is_clique "
+    "counting self-loops, weight-mode node choice before 5c60841, event_cardinality before 87b9aa4. Not theorems: unbounded "
+    "count = multinomial, whole-history statement for subgraph.search, the probabilities inside event_to_sample.")
 
 # ======================================================================================
 # oracle for np.random
@@ -582,6 +582,36 @@ def pred_shrink(d):
     return out
 
 
+def pred_csearch(d):
+    g, cl, sel, draws, iters = d["graph"], d["clique"], d["sel"], d["draws"], d["iterations"]
+    G = mkgraph(g)
+    adj = adjacency(g)
+    arg = list(cl)
+    r = call(CL.search, arg, G, iters, sel_arg(sel), draws=draws)
+    out = []
+    if arg != list(cl) or not _graph_unchanged(G, g):
+        out.append(("clique.search:mutates-input", "search changed its arguments"))
+    cs = set(cl)
+    invalid = iters < 1 or (not cs <= set(g["nodes"])) or (not bf_clique(adj, cs)) or _weights_bad(g, sel)
+    if invalid:
+        if r[0] != "ValueError":
+            out.append(("clique.search:no-error", "invalid input accepted: %s" % (r,)))
+        return out
+    if sel["mode"] not in ("uniform", "degree", "weight"):
+        return out if r[0] in ("Ok", "ValueError") else out + [("clique.search:raises", "search raised %s" % (r[1:],))]
+    if r[0] != "Ok":
+        return out + [("clique.search:raises", "search(%s, iterations=%d) raised %s" % (cl, iters, r[1:]))]
+    res = list(r[1])
+    rs = set(res)
+    if res != sorted(rs) or not rs <= set(g["nodes"]):
+        return out + [("clique.search:not-a-node-set", "search returned %s" % res)]
+    if not bf_clique(adj, rs):
+        out.append(("clique.search:not-a-clique", "search(%s) = %s is not a clique (edges %s)" % (cl, res, g["edges"])))
+    if len(rs) < len(cs):
+        out.append(("clique.search:smaller", "search(%s) = %s is smaller than its input clique" % (cl, res)))
+    return out
+
+
 def _resize_rules(g, adj, sel):
     w = wmap(g, sel["w"]) if sel["mode"] == "weight" else None
 
@@ -764,11 +794,28 @@ def pred_update(d):
     return out[:4]
 
 
+REGRESSION_INPUTS = [
+    ("card", {"orbit": [1], "modes": 24}),
+    ("card", {"orbit": [1] * 10, "modes": 300}),
+    ("card", {"orbit": [2, 1], "modes": 1}),
+    ("event_card", {"photons": 5, "maxc": 4, "modes": 2}),
+    ("event_card", {"photons": 9, "maxc": 3, "modes": 243}),
+    ("e2s", {"photons": 5, "maxc": 4, "modes": 2, "draws": [0, 0], "perm": [0, 1]}),
+    ("is_clique", {"graph": {"nodes": [0, 1], "edges": [[0, 0]]}, "sub": [0, 1]}),
+    ("is_clique", {"graph": {"nodes": [0, 1, 2], "edges": [[0, 1], [1, 2], [0, 2], [1, 1]]}, "sub": [0, 1, 2]}),
+    ("shrink", {"graph": {"nodes": [0, 1, 2, 3], "edges": [[0, 1], [0, 2], [0, 3], [1, 2]]}, "sub": [0, 1, 2, 3],
+                "sel": {"mode": "weight", "w": [0, 0, 0, 0]}, "draws": [0, 0, 0, 0]}),
+    ("resize", {"graph": {"nodes": [0, 1, 2], "edges": [[1, 2]]}, "sub": [2], "lo": 1, "hi": 2,
+                "sel": {"mode": "weight", "w": [1, 1, 0]}, "draws": [0] * 8}),
+    ("resize", {"graph": {"nodes": [0, 1, 2], "edges": [[0, 2]]}, "sub": [0, 1, 2], "lo": 1, "hi": 2,
+                "sel": {"mode": "weight", "w": [1, 1, 0]}, "draws": [0] * 8}),
+]
+
 PREDS = {
     "card": pred_card, "event_card": pred_event_card, "orbits": pred_orbits, "convert": pred_convert,
     "o2s": pred_o2s, "e2s": pred_e2s, "sample": pred_sample, "is_clique": pred_is_clique, "c01": pred_c01,
     "grow": pred_grow, "swap": pred_swap, "shrink": pred_shrink, "resize": pred_resize, "search": pred_search,
-    "update": pred_update,
+    "update": pred_update, "csearch": pred_csearch,
 }
 
 
@@ -854,7 +901,7 @@ def find_clique(rng, g):
     for v in nodes:
         if len(cl) >= size:
             break
-        if v not in adj[v] and all(v in adj[u] for u in cl):
+        if all(v in adj[u] for u in cl):
             cl.append(v)
     return cl
 
@@ -869,7 +916,7 @@ def gen_sub(rng, g, lo=0):
 
 
 def gen_clique_case(rng, kind, max_n, labels):
-    g = gen_graph(rng, max_n=max_n, labels=labels)
+    g = gen_graph(rng, max_n=max_n, labels=labels, loops=rng.random() < 0.15)
     sel = gen_sel(rng, g, modes=("uniform", "weight") if kind == "shrink" else ("uniform", "degree", "weight"))
     d = {"graph": g, "sel": sel, "draws": gen_draws(rng)}
     if kind in ("grow", "swap"):
@@ -891,7 +938,7 @@ def gen_clique_case(rng, kind, max_n, labels):
 
 
 def gen_resize_case(rng, max_n, labels):
-    g = gen_graph(rng, max_n=max_n, labels=labels)
+    g = gen_graph(rng, max_n=max_n, labels=labels, loops=rng.random() < 0.15)
     n = len(g["nodes"])
     sel = gen_sel(rng, g, modes=("uniform", "weight", "weight"))
     sub = gen_sub(rng, g, lo=1)
@@ -1050,7 +1097,7 @@ def small_ok(g):
 def correspondence(ctx):
     rng = ctx.rng
     B = Batch()
-    scale = ctx.budget(3, 24)
+    scale = ctx.budget(2, 24)
 
     # ---- similarity
     for _ in range(60 * scale):
@@ -1078,9 +1125,8 @@ def correspondence(ctx):
         rng.shuffle(perm)
         B.add("o2s", "orbit_to_sample %s %d %s" % (L(o), m, L(perm)), call(SI.orbit_to_sample, list(o), m, perm=perm), {"orbit": o, "modes": m, "perm": perm})
     for _ in range(20 * scale):
-        # modes >= photons: the region where the source and its proposed repair coincide
         k, c = rng.randint(0, 8), rng.randint(0, 4)
-        m = rng.randint(max(k, 1), max(k, 1) + 8)
+        m = rng.randint(1, max(k, 1) + 8)
         perm = list(range(m))
         rng.shuffle(perm)
         dr = gen_draws(rng, 2)
@@ -1102,7 +1148,7 @@ def correspondence(ctx):
         g = gen_graph(rng, max_n=8, labels="small", loops=rng.random() < 0.25)
         sub = gen_sub(rng, g)
         G = mkgraph(g)
-        B.add("is_clique", "(is_clique (adj_of %s) %s, is_clique (noloop (adj_of %s)) %s)" % (E(g), L(sorted(set(sub))), E(g), L(sorted(set(sub)))),
+        B.add("is_clique", "(is_clique (adj_of %s) %s, is_clique_pre_eefbefe (adj_of %s) %s)" % (E(g), L(sorted(set(sub))), E(g), L(sorted(set(sub)))),
               bool(CL.is_clique(G.subgraph(sub))), {"graph": g, "sub": sub})
     for _ in range(30 * scale):
         g = gen_graph(rng, max_n=8, labels="small")
@@ -1121,6 +1167,15 @@ def correspondence(ctx):
             okc = all(0 <= v < 4000 for v in d["clique"])
             if okc:
                 B.add(kind, "%s (adj_of %s) %s %s %s %s" % (kind, E(g), L(g["nodes"]), SEL(d["sel"]), L(d["clique"]), L(d["draws"])), impl, d)
+    for _ in range(30 * scale):
+        d = gen_clique_case(rng, "grow", 8, "small")
+        d["iterations"] = rng.choice([0, 1, 1, 2, 3, 5, 10])
+        d["draws"] = gen_draws(rng, 40)
+        g = d["graph"]
+        G = mkgraph(g)
+        impl = canon_res(call(CL.search, list(d["clique"]), G, d["iterations"], sel_arg(d["sel"]), draws=d["draws"]))
+        if all(0 <= v < 4000 for v in d["clique"]):
+            B.add("csearch", "csearch (adj_of %s) %s %d %s %s %s" % (E(g), L(g["nodes"]), d["iterations"], SEL(d["sel"]), L(d["clique"]), L(d["draws"])), impl, d)
     for _ in range(60 * scale):
         d = gen_clique_case(rng, "shrink", 8, "small")
         g = d["graph"]
@@ -1191,8 +1246,7 @@ def correspondence(ctx):
     ctx.traces += sum(len(v) for v in B.items.values())
 
     pending = []
-    loop_votes = {"counted": 0, "ignored": 0}
-    pending_loops = []
+    old_variant_hits = []
     for kind in kinds:
         for (expr, impl, data, _), mv in zip(B.items[kind], model[kind]):
             nontrivial = False
@@ -1219,19 +1273,17 @@ def correspondence(ctx):
             elif kind == "sample":
                 agree = (impl[0] == [list(x) for x in mv[0]] and impl[1] == [list(x) for x in mv[1]] and impl[2] == [list(x) for x in mv[2]])
             elif kind == "is_clique":
-                # mv = (edge count including self-loops [source as it stands], self-loops ignored [repaired])
-                if mv[0] != mv[1]:
-                    loop_votes["counted" if impl == mv[0] else "ignored"] += 1
-                    pending_loops.append((data, impl, mv))
-                    agree = True
-                else:
-                    agree = impl == mv[0]
+                # mv = (source: self-loops not counted, OLD variant before eefbefe: counted)
+                agree = impl == mv[0]
+                if not agree and impl == mv[1]:
+                    old_variant_hits.append("is_clique counts self-loops again (variant before commit eefbefe)")
+                mv = mv[0]
             elif kind == "c01":
                 m0, m1 = list(mv[0]), [tuple(p) for p in mv[1]]
                 agree = impl[0] == m0 and sorted(impl[1]) == sorted(m1)
                 if agree and impl[1] != m1:
                     ctx.notes.append("c_1 enumeration order differs from ascending on %s" % (data["graph"]["nodes"],))
-            elif kind in ("grow", "swap"):
+            elif kind in ("grow", "swap", "csearch"):
                 nontrivial = len(data["graph"]["nodes"]) >= 4 and data["sel"]["mode"] in ("degree", "weight")
                 agree = impl == canon_model_res(mv)
             elif kind == "shrink":
@@ -1267,41 +1319,21 @@ def correspondence(ctx):
                 if not fails:
                     ctx.disagreement("corr:" + kind, "model %r vs implementation %r" % (mv, impl), dict(data, check=kind, model=repr(mv)[:600], impl=repr(impl)[:600]))
 
-    # does is_clique count self-loops (source as it stands) or ignore them (repaired)?  one answer for all cases
-    lv = "ignored" if loop_votes["ignored"] > loop_votes["counted"] else "counted"
-    ctx.extra["is_clique_selfloops"] = dict(loop_votes, chosen=lv)
-    for data, impl, mv in pending_loops:
-        if impl != (mv[1] if lv == "ignored" else mv[0]):
-            if not run_pred(ctx, "is_clique", data):
-                ctx.disagreement("corr:is_clique", "model(self-loops %s) %r vs implementation %r" % (lv, mv, impl), dict(data, check="is_clique"))
-        elif lv == "counted":
-            run_pred(ctx, "is_clique", data)
-
-    # which variant of the weight-mode indexing does the implementation follow?
-    # (decided separately for clique.py and subgraph.py: they can be repaired independently)
-    group = {"shrink": "clique.shrink", "resize": "subgraph.resize", "search": "subgraph.resize"}
-    votes = {g: {"buggy": 0, "fixed": 0} for g in set(group.values())}
-    for kind, data, impl, mb, mf in pending:
-        if mb != mf:
-            if impl == mb:
-                votes[group[kind]]["buggy"] += 1
-            elif impl == mf:
-                votes[group[kind]]["fixed"] += 1
-    variants = {g: ("fixed" if v["fixed"] > v["buggy"] else "buggy") for g, v in votes.items()}
-    ctx.extra["weight_mode_variant"] = {g: dict(votes[g], chosen=variants[g]) for g in votes}
-    ctx.notes.append("weight-mode indexing variant matched by the implementation: %s" % (ctx.extra["weight_mode_variant"],))
-    for kind, data, impl, mb, mf in pending:
-        variant = variants[group[kind]]
-        mine = mf if variant == "fixed" else mb
-        if impl != mine:
+    # shrink / resize / search: the model of record is the `fixed := true` instance; the OLD variant (before commit
+    # 5c60841) is evaluated too, only to name a regression
+    for kind, data, impl, m_old, m_cur in pending:
+        if impl != m_cur:
             fails = run_pred(ctx, kind, data)
+            is_old = impl == m_old
+            if is_old:
+                old_variant_hits.append("%s follows the weight-mode indexing of before commit 5c60841" % kind)
             if not fails:
-                ctx.disagreement("corr:" + kind, "model(%s) %r vs implementation %r" % (variant, mine, impl), dict(data, check=kind, model=repr(mine)[:600], impl=repr(impl)[:600]))
-            else:
-                # the predicate fails here AND the result is not what the modelled source produces: this is not
-                # (only) the recorded weight-mode indexing defect
-                sig, what = fails[0]
-                ctx.counterexample(sig + "+unmodelled", what + " -- and the result differs from the model of the source (%s variant): model %r" % (variant, mine), dict(data, check=kind))
+                ctx.disagreement("corr:" + kind + (":pre5c60841-variant" if is_old else ""),
+                                 "model %r vs implementation %r%s" % (m_cur, impl, " (= the OLD pre-5c60841 variant)" if is_old else ""),
+                                 dict(data, check=kind, model=repr(m_cur)[:600], impl=repr(impl)[:600]))
+    if old_variant_hits:
+        ctx.notes.append("REGRESSION to an old variant detected: %s" % sorted(set(old_variant_hits)))
+    ctx.extra["old_variant_hits"] = len(old_variant_hits)
 
 
 # ======================================================================================
@@ -1309,12 +1341,16 @@ def correspondence(ctx):
 
 def search(ctx):
     rng = ctx.rng
-    scale = ctx.budget(3, 24)
+    scale = ctx.budget(2, 24)
 
     def go(kind, data, nontrivial=False):
         fails = run_pred(ctx, kind, data)
         ctx.case({"kind": kind, **{k: v for k, v in data.items() if k not in ("draws", "perm")}}, nontrivial=nontrivial, bucket="search-" + kind)
         return fails
+
+    # inputs of defects that were repaired in /repo (87b9aa4, 5c60841, eefbefe): must stay repaired
+    for kind, data in REGRESSION_INPUTS:
+        go(kind, copy.deepcopy(data), True)
 
     # corpus first: minimised past failures / recorded findings
     import glob
@@ -1380,6 +1416,11 @@ def search(ctx):
         for _ in range(90 * scale):
             d = gen_clique_case(rng, kind, 12, "any")
             go(kind, d, len(d["graph"]["nodes"]) >= 4 and d["sel"]["mode"] in ("degree", "weight"))
+    for _ in range(60 * scale):
+        d = gen_clique_case(rng, "grow", 12, "any")
+        d["iterations"] = rng.choice([0, 1, 2, 3, 6, 20])
+        d["draws"] = gen_draws(rng, 60)
+        go("csearch", d, len(d["graph"]["nodes"]) >= 4 and d["iterations"] >= 2)
     for _ in range(110 * scale):
         d = gen_resize_case(rng, 12, "any")
         go("resize", d, len(d["graph"]["nodes"]) >= 4 and d["sel"]["mode"] == "weight")
